@@ -182,6 +182,17 @@ Theorem C02_default_format_valid : forall fmt17 fmtd, fmt17_ok fmt17 -> forall s
 Proof. exact default_format_valid. Qed.
 Print Assumptions C02_default_format_valid.
 
+(* ---- 6. custom serializers (json_object_set_serializer with a caller's function): the node is an opaque piece *)
+Theorem C02_piece_is_verbatim : forall fmt17 fl level piece, SerModel.has_byte 0 piece = false ->
+  serialize fmt17 fl level (piece_node piece) = piece.
+Proof. exact piece_is_verbatim. Qed.
+Print Assumptions C02_piece_is_verbatim.
+Theorem C02_piece_in_array : forall fmt17 fl level piece, SerModel.has_byte 0 piece = false ->
+  serialize fmt17 fl level (JArr [piece_node piece]) =
+  [91] ++ child_prefix fl level ++ piece ++ container_close fl level true 93.
+Proof. exact piece_in_array. Qed.
+Print Assumptions C02_piece_in_array.
+
 (* non-vacuity of the guard and of the oracle hypothesis: the example oracle satisfies fmt17_ok on the
    example's doubles, and the example tree satisfies node_ok *)
 Theorem C02_nonvacuous : fmt17_ok w_fmt17 /\ jv_Forall node_ok (JArr [JDouble w_bits None; JStr [0;47;255]; JObj [([97], JNull)]]).
